@@ -264,6 +264,11 @@ func addDir(tr *Tree, d string) {
 // genLangs: 2..5 languages; a permutation of the pool, so that shrinking moves towards the first ones.
 func genLangs(t *rapid.T) []string {
 	k := rapid.IntRange(2, 5).Draw(t, "nLangs")
+	// now and then more than five: the by-directory report has no limit (the top-file table on
+	// stdout is printed for up to five languages only and is not judged above that)
+	if rapid.IntRange(0, 11).Draw(t, "manyLangs") == 11 {
+		k = rapid.IntRange(6, 8).Draw(t, "nLangsMany")
+	}
 	perm := rapid.Permutation(allLangs).Draw(t, "langPerm")
 	return perm[:k]
 }
@@ -355,6 +360,22 @@ func genShape(t *rapid.T, nCounted int, ignored []string, nEmpty, nRoot int, pre
 	}
 	if rapid.IntRange(0, 4).Draw(t, "noise") == 0 && nCounted > 0 {
 		tr.Files = append(tr.Files, File{Path: names[0] + "/notes.xyz", Lines: []Line{{kindCode, "not a source file"}}})
+	}
+	if len(langs) > 5 {
+		// a tree drawn with more than five languages really has them all
+		have := map[string]bool{}
+		for _, x := range tr.Files {
+			have[x.Lang] = true
+		}
+		for i, l := range langs {
+			if !have[l] {
+				dir := ""
+				if nCounted > 0 {
+					dir = names[i%nCounted]
+				}
+				f.add(dir, l)
+			}
+		}
 	}
 	return tr
 }
@@ -865,6 +886,9 @@ func checkTopFile(tr Tree, base, ws string) (msg string, mismatchCommentBlank in
 		}
 	}
 	// (b) stdout: per language the first min(N, files) files in non-increasing order of code lines
+	if len(sums) > 5 {
+		return "", mismatchCommentBlank // above five languages the tool prints no table (not judged)
+	}
 	blocks, _, perr := parseTopStdout(res.Stdout)
 	if perr != "" {
 		return "stdout of --top-file: " + perr + ctx, mismatchCommentBlank
@@ -1099,6 +1123,7 @@ func classify(tr Tree) pbt.Verdict {
 	add(optional, "language_only_in_ignored_dir")
 	add(len(tr.IncludeExt) > 0, "include_ext")
 	add(len(must) >= 3, "languages>=3")
+	add(len(may) > 5, "more_than_5_languages(top-file table not judged)")
 	add(tr.DirForm == 1, "absolute_dir_argument")
 	add(tr.DirForm == 4, "dir_argument_is_dot(cwd_inside)")
 	add(tr.DirForm == 5, "dir_argument_two_levels")
@@ -1209,12 +1234,14 @@ func checkSweep(s Sweep) pbt.Verdict {
 
 func init() {
 	pbt.SetProperty("C16")
-	pbt.Describe("rapid-generated directory trees: 0-6 immediate subdirectories (ordinary names incl. dotted and hidden ones, 0-3 of the ignored names .git/.svn/.hg/.idea/coca_reporter, empty ones, files nested up to three levels), 0-2 files in the root, 2-5 of the languages Java/Go/Python/JavaScript/Kotlin; every file is 0-9+ lines that are unambiguously code (no comment marker, no quote), whole-line comment (line, one-line block, multi-line block without blank lines) or blank, optionally CRLF / no final newline, so code lines per file are known by construction; --include-ext subsets in a quarter of the cases; --top-size in {1,2,3,30}; DIR given as NAME, NAME/, ./NAME or an absolute path. The sub-check 'sweep' builds, per case, all 16 combinations of (0..3 counted subdirectories) x (an ignored name present) x (an empty directory present). Oracle: the coca binary as a sub-process (cwd next to the tree): cloc DIR --by-directory -> cloc.csv header/rows/cells/summary against the ground truth, stdout rows = csv rows; cloc DIR --top-file --top-size N -> sort_cloc.json lists every counted file with its code lines, stdout has per language min(N, files) rows in non-increasing order whose lengths are the N largest and which can be assigned to distinct files. Non-trivial = at least two counted subdirectories with different language sets; distinct = hash of (subdirectories, path:language:code-lines of every file, include-ext, top-size).",
+	pbt.Describe("rapid-generated directory trees: 0-6 (now and then 7-12) immediate subdirectories (ordinary names incl. dotted and hidden ones, names with a blank or a non-ASCII letter, names differing only in letter case, names that extend or end in an ignored name without being one (coca_reporter_old, my_coca_reporter, old.idea), names of the tool's own report files; 0-3 of the ignored names .git/.svn/.hg/.idea/coca_reporter; empty ones; ones holding only files of unknown type; files nested up to three levels, also below directories named .idea / coca_reporter / like another immediate subdirectory), 0-2 files in the root, 2-5 of 13 languages (Java, Go, Python, JavaScript, Kotlin, C, C Header, C++, C#, TypeScript, Ruby, Rust, Shell: names that are prefixes of one another, names with blanks and symbols); every file is 0-9 (now and then 10-40 or 190-260) lines that are unambiguously code (no comment marker, no quote), whole-line comment (line, one-line block, multi-line block without blank lines) or blank, optionally CRLF / no final newline, so code lines per file are known by construction (one, two and three digits); now and then 9-33 small files of one language in one directory; --include-ext subsets in a quarter of the cases (mostly of the tree's languages, now and then an absent one; spelled --include-ext a,b / -i a,b / --include-ext=a,b / one option per value); --top-size in {0,1,2,3,4,5,7,10,30}; flags before or after DIR; DIR given as NAME, NAME/, ./NAME, an absolute path, '.' (working directory = the tree), up/NAME or ../NAME. A quarter of the 'tree' cases are a sequence: after the first tree a second report is produced in the same working directory (coca_reporter of the first run still there), either of the same tree under other options or of another tree sharing directory names with the first; both reports are judged. The sub-check 'sweep' builds, per case, all 16 combinations of (0..3 counted subdirectories) x (an ignored name present) x (an empty directory present). Oracle: the coca binary as a sub-process: cloc DIR --by-directory -> cloc.csv header/rows/cells/summary against the ground truth, stdout rows = csv rows; cloc DIR --top-file --top-size N -> sort_cloc.json lists every counted file with its code lines, stdout has per language min(N, files) rows in non-increasing order whose lengths are the N largest and which can be assigned to distinct files. Non-trivial = at least two counted subdirectories with different language sets; distinct = hash of (subdirectories, path:language:code-lines of every file, include-ext, top-size).",
 		"row order, language column order and the order of equal-sized files are free; stdout rows and csv rows are compared as multisets after the header",
-		"files inside .git/.svn/.hg/.idea/coca_reporter: a language that occurs only there may or may not be named in the header, and such files may or may not be listed by --top-file (the statement does not say); stdout of --top-file is judged against the files that sort_cloc.json lists",
+		"files inside .git/.svn/.hg/.idea/coca_reporter as immediate subdirectories: a language that occurs only there may or may not be named in the header, and such files may or may not be listed by --top-file (the statement does not say); stdout of --top-file is judged against the files that sort_cloc.json lists. Deeper down .idea and coca_reporter are ordinary directories (their files count for the row they are under); .git/.hg/.svn are not generated below the first level (scc's deny list drops them)",
 		"the printed location is only required to be a suffix of the file's path (the tool strips the DIR prefix with TrimLeft, which can eat more)",
 		"comment and blank counts of sort_cloc.json are compared with the ground truth but only counted, not asserted (the statement speaks of code lines)",
-		"not generated: directory names ending in .git/.hg/.svn (scc's deny list matches by suffix), .gitignore/.ignore files, symlinks, names with commas or blanks, more than five languages (the tool prints no top-file table above five)")
+		"with DIR = '.' the tool's own coca_reporter directory appears inside the tree while it runs: it is an ignored directory; that form is used for single reports only (a second run would count the first run's JSON/CSV report files as source files of the tree)",
+		"not generated: directory names ending in .git/.hg/.svn (scc's deny list matches by suffix), letter-case variants of the ignored names, .gitignore/.ignore files, symlinks, names with commas, --top-size omitted or negative",
+		"one tree in twelve has 6-8 languages: the by-directory report and sort_cloc.json are judged as usual, the top-file table on stdout is not (the tool prints it for up to five languages only")
 	pbt.Register("tree", 130, 500, genTree, checkTree)
 	pbt.Register("sweep", 3, 6, genSweep, checkSweep)
 }
